@@ -446,24 +446,28 @@ package datalog
 
 //@ func (w *World) AddFact(f Fact)
 //@ serves C03 C04 C05 C10 C12
-//@ requires w != nil && w.facts != nil && factsWF(*w.facts) && predWF(f.Predicate)
+//@ requires w != nil && w.facts != nil
+//@ requires factsWF(*w.facts)
+//@ requires predWF(f.Predicate)
 //@ modifies *w.facts, spare(*w.facts)
 //@ ensures wf: factsWF(*w.facts)
 //@ ensures duplicate: old(factIn(f.Predicate, *w.facts)) ==> *w.facts == old(*w.facts)
 //@ ensures added: !old(factIn(f.Predicate, *w.facts)) ==> len(*w.facts) == old(len(*w.facts)) + 1 && (*w.facts)[old(len(*w.facts))] == f
 //@ ensures prefix_kept: len(*w.facts) >= old(len(*w.facts)) && (forall j int :: { (*w.facts)[j] } 0 <= j && j < old(len(*w.facts)) ==> (*w.facts)[j] == old((*w.facts)[j]))
+//@ ensures same_or_fresh_array: (arr(*w.facts) == old(arr(*w.facts)) && off(*w.facts) == old(off(*w.facts)) && cap(*w.facts) == old(cap(*w.facts))) || fresh(arr(*w.facts))
 
 //@ func (w *World) AddRule(r Rule)
 //@ serves C03 C04 C05 C10
 //@ requires w != nil
 //@ modifies w.rules, spare(w.rules)
+//@ ensures same_or_fresh_array: (arr(w.rules) == old(arr(w.rules)) && off(w.rules) == old(off(w.rules)) && cap(w.rules) == old(cap(w.rules))) || fresh(arr(w.rules))
 //@ ensures len(w.rules) == old(len(w.rules)) + 1 && w.rules[len(w.rules)-1] == r && (forall j int :: { w.rules[j] } 0 <= j && j < old(len(w.rules)) ==> w.rules[j] == old(w.rules[j]))
 
 //@ func (w *World) ResetRules()
 //@ serves C02 C03 C04 C10
 //@ requires w != nil
 //@ modifies w.rules
-//@ ensures len(w.rules) == 0
+//@ ensures len(w.rules) == 0 && cap(w.rules) == 0
 
 //@ func (w *World) Clone() (res *World)
 //@ serves C02 C03 C04 C10 C11 C13
@@ -576,12 +580,16 @@ package datalog
 //@ chan done final_if x: true
 //@ chan done yields x: factsWF(*w.facts)
 //@ chan done yields x: x == nil ==> len(*w.facts) < w.runLimits.maxFacts
+//@ chan done yields x: tableGrown(*syms, old(*syms))
+//@ chan done yields x: ((arr(*w.facts) == old(arr(*w.facts)) && off(*w.facts) == old(off(*w.facts)) && cap(*w.facts) == old(cap(*w.facts)) && len(*w.facts) >= old(len(*w.facts))) || fresh(arr(*w.facts)))
 //@ chan done sends x: x == nil ==> newCount == prevCount
 //@ loop 0 modifies *w.facts, spare(*w.facts), *syms, spare(*syms)
 //@ loop 1 modifies newFacts, spare(newFacts), *syms, spare(*syms)
 //@ loop 0 invariant !sentFinal(done) && sentCount(done) == 0 && factsWF(*w.facts) && tableGrownInLoop(*syms, pre(*syms))
+//@ loop 0 invariant grown: tableGrown(*syms, old(*syms)) && ((arr(*w.facts) == old(arr(*w.facts)) && off(*w.facts) == old(off(*w.facts)) && cap(*w.facts) == old(cap(*w.facts)) && len(*w.facts) >= old(len(*w.facts))) || fresh(arr(*w.facts)))
 //@ loop 0 invariant (arr(*w.facts) == pre(arr(*w.facts)) && off(*w.facts) == pre(off(*w.facts)) && cap(*w.facts) == pre(cap(*w.facts)) && len(*w.facts) >= pre(len(*w.facts))) || freshInLoop(arr(*w.facts))
 //@ loop 1 invariant !sentFinal(done) && sentCount(done) == 0 && factsWF(*w.facts) && factsWF(newFacts) && tableGrownInLoop(*syms, pre(*syms))
+//@ loop 1 invariant grown: tableGrown(*syms, old(*syms)) && ((arr(*w.facts) == old(arr(*w.facts)) && off(*w.facts) == old(off(*w.facts)) && cap(*w.facts) == old(cap(*w.facts)) && len(*w.facts) >= old(len(*w.facts))) || fresh(arr(*w.facts)))
 //@ loop 1 invariant arr(*w.facts) != arr(newFacts) || cap(newFacts) == 0
 //@ loop 1 invariant (arr(newFacts) == pre(arr(newFacts)) && off(newFacts) == pre(off(newFacts)) && cap(newFacts) == pre(cap(newFacts)) && len(newFacts) >= pre(len(newFacts))) || freshInLoop(arr(newFacts))
 
@@ -591,9 +599,100 @@ package datalog
 //@ modifies *w.facts, spare(*w.facts), *syms, spare(*syms)
 //@ ensures success_is_within_limits[C11]: err == nil ==> len(*w.facts) < w.runLimits.maxFacts
 //@ ensures facts_wf: err != ErrWorldRunLimitTimeout ==> factsWF(*w.facts)
+//@ ensures grown: err != ErrWorldRunLimitTimeout ==> tableGrown(*syms, old(*syms)) && ((arr(*w.facts) == old(arr(*w.facts)) && off(*w.facts) == old(off(*w.facts)) && cap(*w.facts) == old(cap(*w.facts)) && len(*w.facts) >= old(len(*w.facts))) || fresh(arr(*w.facts)))
 
 //@ func (w *World) QueryRule(rule Rule, syms *SymbolTable) (res *FactSet)
 //@ serves C04 C05 C10
 //@ requires w != nil && w.facts != nil && factsWF(*w.facts) && ruleWF(rule) && syms != nil
 //@ modifies *syms, spare(*syms)
 //@ ensures res != nil && fresh(res) && factsWF(*res) && *w.facts == old(*w.facts)
+//@ ensures table: tableGrown(*syms, old(*syms))
+
+// ---------------------------------------------------------------------------
+// printing (read-only; C10: never panics on decoded content)
+
+//@ iface (t Term) String() (res string)
+//@ serves C10
+//@ requires termWF(t)
+//@ modifies nothing
+
+//@ func (s Set) String() (res string)
+//@ serves C10
+//@ requires setWF(s)
+//@ modifies nothing
+//@ loop 0 invariant len(eltStr) == #i && cap(eltStr) == len(s) && fresh(arr(eltStr)) && off(eltStr) == 0
+
+//@ func (s *stringstack) Push(v string) (err error)
+//@ serves C10
+//@ requires s != nil
+//@ modifies *s, spare(*s)
+//@ ensures full: old(len(*s)) >= 1000 ==> err != nil && *s == old(*s)
+//@ ensures pushed: old(len(*s)) < 1000 ==> err == nil && len(*s) == old(len(*s)) + 1
+//@ ensures same_or_fresh_array: (arr(*s) == old(arr(*s)) && off(*s) == old(off(*s)) && cap(*s) == old(cap(*s))) || fresh(arr(*s))
+
+//@ func (s *stringstack) Pop() (v string, err error)
+//@ serves C10
+//@ requires s != nil
+//@ modifies *s
+//@ ensures empty: old(len(*s)) == 0 ==> err != nil && *s == old(*s)
+//@ ensures popped: old(len(*s)) > 0 ==> err == nil && len(*s) == old(len(*s)) - 1 && arr(*s) == old(arr(*s)) && off(*s) == old(off(*s)) && cap(*s) == old(cap(*s))
+
+//@ func (op UnaryOp) Print(value string) (res string)
+//@ serves C10
+//@ requires op.UnaryOpFunc != nil
+//@ modifies nothing
+
+//@ func (op BinaryOp) Print(left string, right string) (res string)
+//@ serves C10
+//@ requires op.BinaryOpFunc != nil
+//@ modifies nothing
+
+//@ func (e *Expression) Print(symbols *SymbolTable) (res string)
+//@ serves C10
+//@ requires e != nil && symbols != nil && exprWF(*e)
+//@ modifies nothing
+//@ loop 0 invariant s != nil && fresh(s) && (cap(*s) == 0 || fresh(arr(*s)))
+
+//@ func (d SymbolDebugger) Predicate(p Predicate) (res string)
+//@ serves C10
+//@ requires d.SymbolTable != nil
+//@ modifies nothing
+//@ loop 0 invariant len(strs) == len(p.Terms) && fresh(arr(strs))
+
+//@ func (d SymbolDebugger) Expression(e Expression) (res string)
+//@ serves C10
+//@ requires d.SymbolTable != nil && exprWF(e)
+//@ modifies nothing
+
+//@ func (d SymbolDebugger) Rule(r Rule) (res string)
+//@ serves C10
+//@ requires d.SymbolTable != nil && exprsWF(r.Expressions)
+//@ modifies nothing
+//@ loop 0 invariant len(preds) == len(r.Body) && fresh(arr(preds))
+//@ loop 1 invariant len(preds) == len(r.Body) && fresh(arr(preds)) && len(expressions) == len(r.Expressions) && fresh(arr(expressions))
+
+//@ func (d SymbolDebugger) CheckQuery(r Rule) (res string)
+//@ serves C10
+//@ requires d.SymbolTable != nil && exprsWF(r.Expressions)
+//@ modifies nothing
+//@ loop 0 invariant len(preds) == len(r.Body) && fresh(arr(preds))
+//@ loop 1 invariant len(preds) == len(r.Body) && fresh(arr(preds)) && len(expressions) == len(r.Expressions) && fresh(arr(expressions))
+
+//@ func (d SymbolDebugger) Check(c Check) (res string)
+//@ serves C10
+//@ requires d.SymbolTable != nil && (forall j int :: { c.Queries[j] } 0 <= j && j < len(c.Queries) ==> exprsWF(c.Queries[j].Expressions))
+//@ modifies nothing
+//@ loop 0 invariant len(queries) == len(c.Queries) && fresh(arr(queries))
+
+//@ func (d SymbolDebugger) World(w *World) (res string)
+//@ serves C10
+//@ requires d.SymbolTable != nil && w != nil && w.facts != nil && (forall j int :: { w.rules[j] } 0 <= j && j < len(w.rules) ==> exprsWF(w.rules[j].Expressions))
+//@ modifies nothing
+//@ loop 0 invariant len(facts) == len(*w.facts) && fresh(arr(facts))
+//@ loop 1 invariant len(facts) == len(*w.facts) && fresh(arr(facts)) && len(rules) == len(w.rules) && fresh(arr(rules))
+
+//@ func (d SymbolDebugger) FactSet(s *FactSet) (res string)
+//@ serves C10
+//@ requires d.SymbolTable != nil && s != nil
+//@ modifies nothing
+//@ loop 0 invariant len(strs) == len(*s) && fresh(arr(strs))
